@@ -23,6 +23,7 @@
 #include <string.h>
 #include <unistd.h>
 #include <sys/wait.h>
+#include <sys/syscall.h>
 
 extern char **environ;
 static int TR = -1;
@@ -40,6 +41,8 @@ static void (*p_fork_returned)(void);
 static void (*p_detach)(void);
 static int (*p_mismatch)(void);
 static int (*p_pos)(void);
+static void (*p_quiet)(int);
+static volatile int QUIET = 0, STOP = 0;
 
 static void trf(const char *fmt, ...) {
     char buf[512]; va_list ap; va_start(ap, fmt); int n = vsnprintf(buf, sizeof buf, fmt, ap); va_end(ap);
@@ -57,7 +60,7 @@ static void one_call(int i, int j) {
     errno = 0;
     int r = (j & 1) ? execv(path, argv) : execve(path, argv, environ);
     int e = errno;
-    trf("ret\t%d\t%d\t%d\t%d\n", i, j, r, e);
+    if (!QUIET) trf("ret\t%d\t%d\t%d\t%d\n", i, j, r, e);
 }
 
 static void *worker(void *arg) {
@@ -90,6 +93,22 @@ static void *race_worker(void *arg) {
     if (p_begin) p_begin(1);
     while (!race_go) usleep(100);
     one_call(1, 0);
+    return NULL;
+}
+
+/* sigfork: the handler of the signal that interrupts a lock window forks; the child execs under an alarm */
+static void on_usr1(int sig) {
+    (void) sig;
+    pid_t pid = fork();
+    if (pid == 0) { if (p_detach) p_detach(); signal(SIGALRM, SIG_DFL); alarm(5); one_call(0, 100); alarm(0); trf("child\tdone\n"); _exit(0); }
+    trf("fork\treturned\n");
+    int st; waitpid(pid, &st, 0);
+    if (WIFSIGNALED(st)) trf("child\tsignal\t%d\n", WTERMSIG(st));
+    else if (WEXITSTATUS(st)) trf("child\texit\t%d\n", WEXITSTATUS(st));
+}
+static void *loop_worker(void *arg) {
+    int i = (int)(long) arg;
+    for (int j = 0; !STOP; j++) one_call(i, j % 3);
     return NULL;
 }
 
@@ -129,6 +148,7 @@ int main(int argc, char **argv) {
     p_detach = (void (*)(void)) dlsym(RTLD_DEFAULT, "sched_detach");
     p_mismatch = (int (*)(void)) dlsym(RTLD_DEFAULT, "sched_mismatch");
     p_pos = (int (*)(void)) dlsym(RTLD_DEFAULT, "sched_pos");
+    p_quiet = (void (*)(int)) dlsym(RTLD_DEFAULT, "sched_quiet");
     if (!p_setup) { fprintf(stderr, "libsched.so is not loaded\n"); return 2; }
     void (*alt)(char *) = (void (*)(char *)) dlsym(RTLD_DEFAULT, "snoopy_configuration_preinit_enableAltConfigFileParsing");
     if (alt) alt(argv[2]); else trf("note\tno-alt-config-symbol\n");
@@ -159,6 +179,41 @@ int main(int argc, char **argv) {
         return 0;
     }
 
+    if (!strcmp(mode, "sigfork")) {
+        /* thread 1 makes one wrapped call; right after its k-th acquisition of the repository mutex SIGUSR1 arrives on it, the handler forks */
+        int k = atoi(argv[6]);
+        p_setup(4, TR, "-", k, 0);
+        p_begin(0);
+        signal(SIGUSR1, on_usr1);
+        alarm(12);                       /* a fork() that never returns ends here: "stuck" */
+        pthread_t th; pthread_create(&th, NULL, worker, (void *)(long) 1);
+        pthread_join(th, NULL);
+        trf("end-main\n");
+        return 0;
+    }
+    if (!strcmp(mode, "forkstress")) {
+        /* nthreads threads make wrapped calls in a loop, the main thread forks <arg> times; every child execs under a 5 s alarm */
+        int forks = atoi(argv[6]);
+        p_setup(0, TR, "-", 0, 0);
+        QUIET = 1; if (p_quiet) p_quiet(1);
+        alarm(600);
+        pthread_t *th = calloc((size_t) nthreads, sizeof *th);
+        for (int i = 0; i < nthreads; i++) pthread_create(&th[i], NULL, loop_worker, (void *)(long)(i + 1));
+        usleep(20000);
+        int blocked = -1, f;
+        for (f = 0; f < forks && blocked < 0; f++) {
+            pid_t pid = fork();
+            if (pid == 0) { signal(SIGALRM, SIG_DFL); alarm(5); one_call(0, 0); _exit(0); }
+            int st; waitpid(pid, &st, 0);
+            if (WIFSIGNALED(st) || WEXITSTATUS(st)) { blocked = f; trf("forkstress\tchild\t%d\t%s\t%d\n", f, WIFSIGNALED(st) ? "signal" : "exit", WIFSIGNALED(st) ? WTERMSIG(st) : WEXITSTATUS(st)); }
+            usleep(300);
+        }
+        STOP = 1;
+        for (int i = 0; i < nthreads; i++) pthread_join(th[i], NULL);
+        trf("forkstress\tdone\t%d\n", f);
+        trf("end-main\n");
+        return 0;
+    }
     if (!strcmp(mode, "forkrace")) {
         p_setup(3, TR, "-", 1, 150);
         p_begin(0);
@@ -182,11 +237,16 @@ int main(int argc, char **argv) {
     int m = !strcmp(mode, "trace") ? 1 : !strcmp(mode, "force") ? 2 : 0;
     MODE_FORCE_ON = (m == 2) || (m == 1);
     p_setup(m, TR, argv[6], 0, 0);
-    alarm(m == 2 ? 30 : 120);
+    alarm(m == 2 ? 15 : 120);
     pthread_t *th = calloc((size_t) nthreads, sizeof *th);
     for (int i = 0; i < nthreads; i++) pthread_create(&th[i], NULL, worker, (void *)(long) i);
     for (int i = 0; i < nthreads; i++) pthread_join(th[i], NULL);
     if (m == 2) trf("finished\t%d\t%d\n", p_pos ? p_pos() : -1, p_mismatch ? p_mismatch() : -1);
+    if (m != 1) {
+        /* all calls have returned: a later lone call must see exactly one registered thread */
+        trf("tid\t99\t%ld\n", (long) syscall(SYS_gettid));
+        one_call(99, 0);
+    }
     trf("end-main\n");
     return 0;
 }
